@@ -433,6 +433,10 @@ func (x *Exec) modelMethod(recv IfaceV, m *types.Func) Value {
 		return nil
 	}
 	switch m.Name() {
+	case "Kind":
+		return &nativeFn{name: "reflect.Type.Kind", f: func(x *Exec, args []Value) Value {
+			return x.C.BVC(64, uint64(kindOf(rt.T)))
+		}}
 	case "String", "Name":
 		return &nativeFn{name: "reflect.Type." + m.Name(), f: func(x *Exec, args []Value) Value {
 			return Str{S: types.TypeString(rt.T, func(p *types.Package) string { return p.Name() })}
